@@ -114,7 +114,7 @@ def _layout(t, layout):
         # stride-0 along a trailing unit dim
         if t.ndim < 2 or t.shape[-1] != 1:
             return None
-        return t.expand(t.shape)
+        return t.clone().expand(t.shape)
     raise ValueError(layout)
 
 
@@ -167,6 +167,15 @@ def _roundtrip_case(case):
     elif not torch.equal(u, t0):
         idx = (u != t0).nonzero()[0].tolist()
         bad(f"unpack(pack(t)) != t: first mismatch at {idx}", got=int(u[tuple(idx)]), want=int(t0[tuple(idx)]))
+    # the packed tensor owns its payload: overwriting the source afterwards must not change what it decodes to
+    if t.is_contiguous() and t.numel() > 0 and not vs and t.data_ptr() != t0.data_ptr():
+        try:
+            t.fill_(0 if int(t0.flatten()[0]) != 0 else 1)
+            u2 = p.unpack()
+            if not torch.equal(u2, t0):
+                bad("packed tensor aliases its source: overwriting the source tensor after pack() changed unpack()")
+        except Exception as e:  # noqa
+            bad(f"unpack after overwriting the source raised {type(e).__name__}: {e}")
     # the payload must decode with the independent reference as well
     if type(inner) is torch.Tensor and inner.dtype == torch.uint8 and inner.shape[0] == exp_rows:
         r = _ref_unpack(inner, bits)[:L]
